@@ -26,7 +26,7 @@ pub struct Create {
     ///
     /// This option is only used when projecting, and otherwise set to zero since the output must
     /// be integer counts.
-    #[arg(long, default_value_t = 6, value_name = "INT")]
+    #[arg(long, default_value_t = 6, value_name = "INT", value_parser = crate::parse_precision)]
     precision: usize,
 
     #[command(flatten)]
